@@ -1,6 +1,6 @@
 import Infretis.Lemmas.RepexC07Issue
 /-!
-# C07 — historical record: the restart path before the repairs 96833bd / ec057e1
+# C07 — historical record: the restart path before the repairs 96833bd / ec057e1 / 147c104
 
 Before the repairs `set_rgen()` built `SeedSequence(entropy = 0, n_children_spawned = cstep)` and
 `pick_lock()` called it on EVERY call once no recorded job was left to re-issue.  `setRgenAsIs` /
@@ -34,7 +34,7 @@ def pickLockAsIs (s : St) (o : PickOutcome) (savedDraws : Nat) :
 theorem pickLockAsIs_streams {s s' : St} {o : PickOutcome} {d : Nat} {ps : List Picked}
     {ds : List Draw} (h0 : s.locked0 = []) (hr : s.restarted = true)
     (hp : pickLockAsIs s o d = .ok (s', ps, ds)) :
-    (∀ j p, ps[j]? = some p → p.rgen = moveStream 0 s.cstep j ∧ p.rgenEng = engStream 0 s.cstep j) ∧
+    StreamsAt 0 s.cstep ps ∧
       s'.cstep = s.cstep ∧ s'.locked0 = [] ∧ s'.restarted = true := by
   unfold pickLockAsIs at hp
   rw [h0] at hp
@@ -58,5 +58,57 @@ theorem pickLockAsIs_collide {s s1 s2 : St} {o1 o2 : PickOutcome} {d1 d2 : Nat}
   obtain ⟨f1, f2⟩ := b1 j q hq
   rw [a2] at f1 f2
   exact ⟨e1.trans f1.symm, e2.trans f2.symm⟩
+
+/-! ### between ec057e1 / 5ba2c24 and 147c104: a re-issued job took a FRESH ordinal -/
+
+/-- the re-issue branch of `pick_lock()` as it was before 147c104: the recorded job gets a fresh
+    child (the counter advances) and goes back on record, without its ordinal -/
+def pickLockFreshOrd (s : St) (o : PickOutcome) (savedDraws : Nat) :
+    Except Err (St × List Picked × List Draw) :=
+  match s.locked0 with
+  | [] => pick (restoreStreamOnce s savedDraws) o
+  | (enss0, trajs0) :: rest =>
+    match reissue { s with locked0 := rest } enss0 trajs0 with
+    | .error er => .error er
+    | .ok (s1, pairs) =>
+      match mkPicked s1 pairs with
+      | .error er => .error er
+      | .ok ps =>
+        let entry : List Int × List Nat := (enss0.map (fun (e : Nat) => ((e : Int) - (off : Int))), trajs0)
+        .ok ({ s1 with spawned := s1.spawned + 1, locked := s1.locked ++ [entry] }, ps, [])
+
+/-- **why the chain broke before 147c104, for every state**: a restart restores
+    `spawned = cstep + #locked0`; each as-is re-issue advances the counter AND keeps the job on record,
+    so the surplus `spawned − (cstep + #locked + #locked0)` grows by one per re-issued job — the next
+    `set_rgen()` (`cstep + len(locked)`) under-counts by the number of re-issued jobs and ordinals
+    are handed out twice. -/
+theorem reissue_freshOrd_undercounts {s s' : St} {o : PickOutcome} {d : Nat} {ps : List Picked}
+    {ds : List Draw} (hne : s.locked0 ≠ []) (hp : pickLockFreshOrd s o d = .ok (s', ps, ds)) :
+    s'.spawned + (s.cstep + s.locked.length + s.locked0.length)
+      = s.spawned + (s'.cstep + s'.locked.length + s'.locked0.length) + 1 ∧
+    StreamsAt s.entropy s.spawned ps := by
+  unfold pickLockFreshOrd at hp
+  split at hp
+  · rename_i h; exact absurd h hne
+  rename_i enss0 trajs0 rest hl0
+  split at hp
+  · exact absurd hp (by simp)
+  rename_i s1 pairs hre
+  split at hp
+  · exact absurd hp (by simp)
+  rename_i ps1 hmk
+  simp only [Except.ok.injEq, Prod.mk.injEq] at hp
+  obtain ⟨rfl, rfl, _⟩ := hp
+  obtain ⟨q, ql, _⟩ := reissue_quiet hre
+  have hst := mkPicked_streams hmk
+  refine ⟨?_, ?_⟩
+  · show s1.spawned + 1 + _ = s.spawned + (s1.cstep + (s1.locked ++ _).length + s1.locked0.length) + 1
+    rw [q.spawned, q.cstep, ql, q.locked0, hl0]
+    simp only [List.length_append, List.length_cons, List.length_nil]
+    omega
+  · intro j p hp'
+    have := hst j p hp'
+    rw [q.entropy, q.spawned] at this
+    exact this
 
 end Infretis.Repex
